@@ -265,11 +265,11 @@ def range_(ctx):
                       fail_msg="an unfiltered row source is chunked over %s..%s" % (cm.origin_summary(k), cm.origin_summary(last)))
 
 
-def buffered(ctx):
+def buffered(ctx, rid="C05.buffered"):
     """a partially buffered version is answered with the INTERSECTION of a held seq range (row of __corro_seq_bookkeeping)
     and the requested range: start derives from both starts (max), end from both ends (min)  (added after C05-c / C03-c)"""
     F = ctx.F
-    R = ctx.rule("C05.buffered", "K4", "the chunk range served from __corro_buffered_changes is bounded by the held range AND the requested range: start = max(held.start, requested.start), end = min(held.end, requested.end)")
+    R = ctx.rule(rid, "K4", "the chunk range served from __corro_buffered_changes is bounded by the held range AND the requested range: start = max(held.start, requested.start), end = min(held.end, requested.end)")
     b = F.get(HN)
     if not R.anchor(b, "handle_need", "fn handle_need"):
         return
